@@ -41,11 +41,12 @@ pub struct SimRead {
     error_at: Option<usize>,
     pub reads: u64,
     pub interrupts: u64,
+    just_interrupted: bool,
 }
 
 impl SimRead {
     pub fn new(data: Vec<u8>, chunk: u32, interrupt_den: u32, error_at: Option<usize>) -> Self {
-        SimRead { data, pos: 0, chunk, interrupt_den, error_at, reads: 0, interrupts: 0 }
+        SimRead { data, pos: 0, chunk, interrupt_den, error_at, reads: 0, interrupts: 0, just_interrupted: false }
     }
 }
 
@@ -55,10 +56,14 @@ impl Read for SimRead {
         if buf.is_empty() {
             return Ok(0);
         }
-        if self.interrupt_den > 0 && choice(self.interrupt_den) == 0 {
+        // (never twice in a row: callers retry an interrupted read, and a reader that is
+        // interrupted every time would keep them retrying forever by contract)
+        if self.interrupt_den > 0 && !self.just_interrupted && choice(self.interrupt_den) == 0 {
             self.interrupts += 1;
+            self.just_interrupted = true;
             return Err(std::io::Error::new(std::io::ErrorKind::Interrupted, "simulated EINTR"));
         }
+        self.just_interrupted = false;
         if let Some(at) = self.error_at {
             if self.pos >= at {
                 return Err(std::io::Error::new(std::io::ErrorKind::ConnectionReset, "simulated reset"));
@@ -120,6 +125,21 @@ fn gen_v(depth: u32) -> V {
         }
         17 => V::List((0..pick(&[0u32, 1, 2, 3, 30])).map(|_| gen_v(depth + 1)).collect()),
         18 => V::Map((0..choice(4)).map(|i| (V::Str(format!("k{}", i)), gen_v(depth + 1))).collect()),
+        19 if choice(3) == 0 => {
+            // arrays of compound or zero-width elements
+            let n = 1 + choice(3);
+            match choice(5) {
+                0 => V::Array((0..n).map(|i| V::List(vec![V::Uint(300 + i), V::Str(format!("e{}", i))])).collect()),
+                1 => V::Array((0..n).map(|i| V::Map(vec![(V::Str("k".into()), V::Uint(1000 + i))])).collect()),
+                2 => V::Array((0..n).map(|i| V::Array(vec![V::Uint(70000 + i), V::Uint(5)])).collect()),
+                3 => V::Array((0..n).map(|_| V::Null).collect()),
+                _ => V::Array((0..n).map(|_| V::List(vec![])).collect()),
+            }
+        }
+        18 if choice(3) == 0 => {
+            // a map whose keys are timestamps and whose values are longs
+            V::Map((0..1 + choice(3)).map(|i| (V::Timestamp(1_600_000_000_000 + i as i64), V::Long(pick(&[-7i64, 5, -70_000_000_000, i64::MAX])))).collect())
+        }
         19 => {
             // arrays: one element type
             let k = choice(4);
@@ -163,7 +183,7 @@ fn gen_encoding(kind: Kind) -> Vec<u8> {
                 7 => peer::end(None),
                 _ => peer::close(Some(peer::error("amqp:connection:forced", None))),
             };
-            refcodec::encode(&v)
+            refcodec::encode_with(&v, refcodec::EncOpts { wide: choice(4) == 0 })
         }
         Kind::SaslBody => {
             let v = match choice(5) {
@@ -489,6 +509,26 @@ pub async fn run_c04_corruption() {
     sim::mark_nontrivial();
     sim::evh_bytes(0xC04, &bytes);
     decode_all(&bytes, false);
+}
+
+/// Valid encodings, uncorrupted: every one must decode (both readers, chunked, interrupted),
+/// and what it decodes to must survive the crate's own encoder
+pub async fn run_c04_valid() {
+    let kind = pick(&[Kind::AnyValue, Kind::AnyValue, Kind::AnyValue, Kind::PerformativeBody, Kind::SaslBody, Kind::MessageBytes]);
+    let bytes = gen_encoding(kind);
+    sim::set_config(format!("variant=valid kind={:?} len={} head={}", kind, bytes.len(), refcodec::hex(&bytes[..bytes.len().min(64)])));
+    sim::mark_nontrivial();
+    sim::evh_bytes(0xC04, &bytes);
+    if kind != Kind::MessageBytes {
+        // (a message is a sequence of sections, not one value)
+        // (C04 asks for a value or an error; that a valid encoding is accepted is C05's
+        // business - counted, not judged)
+        if from_slice::<Value>(&bytes).is_err() {
+            sim::probe("valid-encoding-rejected");
+        }
+    }
+    decode_all(&bytes, true);
+    sim::probe("valid-encoding-decoded");
 }
 
 pub const CUT_MAX: u64 = 700;
